@@ -6,6 +6,7 @@
            | [k:"list", es: Seq(Value)] | [k:"map", ps: Seq(<<key, value>>)]   (keys pairwise not Eq)
            | [k:"fn", id, ...]  (user closure: ElvCore.tla)  | [k:"fn", id: 0, b: name] (builtin)
            | [k:"exc", c: Cause]                               (c.c = "ok" is the value $ok)
+           | [k:"reason", c: Cause]                            (the `reason` field of an exception)
    Cause  == [c:"ok"] | [c:"fail", v: Value] | [c:"flow", n: "break"|"continue"|"return"]
            | [c:"arity"] | [c:"bad-value"] | [c:"out-of-range"] | [c:"no-such-key"] | [c:"type"]
            | [c:"unsupported-option"] | [c:"pipeline", cs: Seq(Cause)]
@@ -225,7 +226,27 @@ Index(v, key) ==
          ELSE LET j == MapFind(v.ps, key, 1) IN
               IF j = 0 THEN Bad(CNoSuchKey) ELSE Good(v.ps[j][2])
     [] v.k \in {"nil", "bool", "num"} -> Bad(CType)           \* not indexable
-    [] OTHER -> Bad(OOM("indexing a pseudo-map (function, exception)"))
+    [] v.k = "exc" ->
+         \* "Exception": a pseudo-map with a `reason` field (itself a pseudo-map for fail / flow /
+         \* pipeline causes); the stack trace and the other causes are opaque
+         IF v.c.c = "ok" THEN Bad(OOM("indexing $ok"))
+         ELSE IF key = VStr(<<114,101,97,115,111,110>>) /\ v.c.c \in {"fail", "flow", "pipeline"}
+              THEN Good([k |-> "reason", c |-> v.c])
+         ELSE Bad(OOM("field of an exception other than reason / opaque reason"))
+    [] v.k = "reason" ->
+         CASE key = VStr(<<116,121,112,101>>) ->                                  \* type
+                Good(VStr(CASE v.c.c = "fail" -> <<102,97,105,108>>
+                            [] v.c.c = "flow" -> <<102,108,111,119>>
+                            [] OTHER -> <<112,105,112,101,108,105,110,101>>))
+           [] key = VStr(<<99,111,110,116,101,110,116>>) /\ v.c.c = "fail" -> Good(v.c.v)      \* content
+           [] key = VStr(<<110,97,109,101>>) /\ v.c.c = "flow" ->                 \* name
+                Good(VStr(CASE v.c.n = "break" -> <<98,114,101,97,107>>
+                            [] v.c.n = "continue" -> <<99,111,110,116,105,110,117,101>>
+                            [] OTHER -> <<114,101,116,117,114,110>>))
+           [] key = VStr(<<101,120,99,101,112,116,105,111,110,115>>) /\ v.c.c = "pipeline" ->  \* exceptions
+                Good(VList([i \in 1..Len(v.c.cs) |-> VExc(v.c.cs[i])]))
+           [] OTHER -> IF key.k = "str" THEN Bad(CNoSuchKey) ELSE Bad(OOM("reason field"))
+    [] OTHER -> Bad(OOM("indexing a function"))
 
 \* Assoc(v, key, val): element assignment / builtin assoc.
 Assoc(v, key, val) ==
@@ -290,6 +311,14 @@ CauseMatches(c, rec) ==
          [] OTHER -> TRUE
 SeqMatches(vs, recs) == Len(vs) = Len(recs) /\ \A i \in 1..Len(vs) : Matches(vs[i], recs[i])
 
+\* values the executor cannot project (the model's stand-in for an opaque Elvish value)
+RECURSIVE Opaque(_)
+Opaque(v) == CASE v.k = "reason" -> TRUE
+               [] v.k = "list" -> \E i \in 1..Len(v.es) : Opaque(v.es[i])
+               [] v.k = "map"  -> \E i \in 1..Len(v.ps) : Opaque(v.ps[i][1]) \/ Opaque(v.ps[i][2])
+               [] v.k = "exc"  -> v.c.c = "fail" /\ Opaque(v.c.v)
+               [] OTHER -> FALSE
+
 \* Printable projection of a model value (closures lose their environment).
 RECURSIVE Show(_)
 RECURSIVE ShowCause(_)
@@ -297,6 +326,7 @@ Show(v) == CASE v.k = "list" -> [k |-> "list", es |-> [i \in 1..Len(v.es) |-> Sh
              [] v.k = "map"  -> [k |-> "map", ps |-> [i \in 1..Len(v.ps) |-> <<Show(v.ps[i][1]), Show(v.ps[i][2])>>]]
              [] v.k = "fn"   -> [k |-> "fn"]
              [] v.k = "exc"  -> [k |-> "exc", c |-> ShowCause(v.c)]
+             [] v.k = "reason" -> [k |-> "reason", c |-> ShowCause(v.c)]
              [] OTHER        -> v
 ShowCause(c) == CASE c.c = "fail" -> [c |-> "fail", v |-> Show(c.v)]
                   [] c.c = "pipeline" -> [c |-> "pipeline", cs |-> [i \in 1..Len(c.cs) |-> ShowCause(c.cs[i])]]
